@@ -20,7 +20,7 @@ from harness.checks.c14 import gen_hunk
 PRESTATS = [None, None, {'stats': {'custom': 7}}, {'stats': {'insertions': 40, 'deletions': 2, 'lines changed': 42, 'k': 1}},
             {'path': 'a/b', 'stats': {'files': 99}}, {'other': [1, {'x': None}]},
             {'stats': {'lines changed': 4}}, {'stats': {'changes': 5, 'files': 2}}, {'stats': {'changes': 1}}, {'stats': {'insertions': 1, 'deletions': 1, 'lines changed': 9, 'files': 3}}]
-ENCS = [None, None, 'utf-8', 'latin-1', 'utf-16', 'utf-32', 'utf-16-be', 'cp037']
+ENCS = [None, None, 'utf-8', 'latin-1', 'utf-16', 'utf-32', 'utf-16-be', 'cp037', 'utf-8-sig', 'UTF-16', 'utf_8_sig']
 
 
 def make_diff(rng):
